@@ -455,7 +455,10 @@ pub fn build_wasm(tc: &RustToolchain, dir: &Path, bindings: &str, edition: &str)
         .arg("main.rs")
         .arg("-o")
         .arg("case.wasm");
-    let o = run_cmd(c, 600_000);
+    let o = run_cmd(c, 1_800_000);
+    if o.timed_out || o.code.is_none() {
+        return Err(Fail { stage: "machinery", msg: format!("rustc (wasm32) timed out or was killed: {}", trim_msg(&o.text)) });
+    }
     if !o.ok {
         let stage = if o.text.contains("linking with") || o.text.contains("rust-lld") { "link" } else { "rustc-wasm32" };
         return Err(Fail { stage, msg: trim_msg(&o.text) });
@@ -480,7 +483,10 @@ pub fn check_native(tc: &RustToolchain, dir: &Path, bindings: &str, edition: &st
         .arg("main_std.rs")
         .arg("-o")
         .arg("case.rmeta");
-    let o = run_cmd(c, 600_000);
+    let o = run_cmd(c, 1_800_000);
+    if o.timed_out || o.code.is_none() {
+        return Err(Fail { stage: "machinery", msg: format!("rustc (native) timed out or was killed: {}", trim_msg(&o.text)) });
+    }
     if !o.ok {
         return Err(Fail { stage: "rustc-native", msg: trim_msg(&o.text) });
     }
